@@ -9,7 +9,7 @@ V="$(cd "$(dirname "$0")/.." && pwd)"
 case "$ID" in
   C01) TARGET=range_ast_c01; RUNS=${VERIF_FUZZ_RUNS:-400000} ;;
   C05|C17) TARGET=version_text_c05_c17; RUNS=${VERIF_FUZZ_RUNS:-800000} ;;
-  C06) TARGET=ops_c06; RUNS=${VERIF_FUZZ_RUNS:-60000} ;;
+  C06) TARGET=ops_c06; RUNS=${VERIF_FUZZ_RUNS:-25000} ;;   # ~15 exec/s per job: every input goes through the whole public surface and compositions
   C07|C08|C09|C10) TARGET=algebra_c07_c15; RUNS=${VERIF_FUZZ_RUNS:-150000}; export VCHECK_FUZZ_PROP=$ID ;;
   C11) TARGET=algebra_c07_c15; RUNS=${VERIF_FUZZ_RUNS:-100000}; export VCHECK_FUZZ_PROP=$ID ;;
   C13) TARGET=algebra_c07_c15; RUNS=${VERIF_FUZZ_RUNS:-40000}; export VCHECK_FUZZ_PROP=$ID ;;
